@@ -139,8 +139,10 @@ def run(scn, seed=0, yields=None, raise_mask_acc=None, raise_mask_req=None, watc
             event.assoc.network_timeout_response = scn["nt_response"]
         sync["established"].set()
 
-    handlers = rec.make("acc", raise_mask_acc) + [(evt.EVT_C_ECHO, on_echo), (evt.EVT_C_STORE, on_store), (evt.EVT_C_FIND, on_find),
-                                                  (evt.EVT_ESTABLISHED, on_established)]
+    # the scenario's own EVT_ESTABLISHED handler is bound FIRST: evt.trigger stops calling an event's remaining handlers after
+    # one raised, so a raising recorder handler (C26) must not be able to switch the scenario's own plumbing off
+    handlers = [(evt.EVT_ESTABLISHED, on_established)] + rec.make("acc", raise_mask_acc) + [
+        (evt.EVT_C_ECHO, on_echo), (evt.EVT_C_STORE, on_store), (evt.EVT_C_FIND, on_find)]
     server, port = harness.start_server(ae_acc, handlers)
     res = {"req": {}, "acc": {}}
     threads = []
